@@ -1,6 +1,6 @@
 #!/bin/sh
 # tools/try_seed_wt.sh <dir with patch.diff> <Cxx> [tier] : like try_seed.sh but in the scratch worktree /tmp/mywt (so /repo stays free)
-d=$1; p=$2; tier=${3:-quick}; wt=/tmp/mywt
+d=$1; p=$2; tier=${3:-quick}; wt=${SEED_WT:-/tmp/mywt}
 [ -d $wt ] || git -C /repo worktree add -q --detach $wt HEAD
 cd $wt && git checkout -q -- . && git checkout -q --detach "$(git -C /repo rev-parse HEAD)" || exit 2
 git apply "$d/patch.diff" 2>/dev/null || git apply --3way "$d/patch.diff" >/dev/null 2>&1 || { echo "PATCH DOES NOT APPLY"; git checkout -q -- .; exit 3; }
